@@ -161,6 +161,44 @@ def norm_messages(v: Any) -> Any:
     return norm(v)
 
 
+def load_documents() -> List[Tuple[str, str]]:
+    """Documents with problems that the parsers / the link resolution report through the
+    raise-if-strict function - with classes of the library and with others (KeyError,
+    NotImplementedError) - plus a sound one as control."""
+    from .. import odxgen
+    model = odxgen.simple_layer("ldl", [odxgen.dop("u8", odxgen.dct_std("A_UINT32", 8))],
+                                [{"name": "rq", "params": [odxgen.u8const("sid", 0x10),
+                                                           odxgen.p_value("x", "u8")]}])
+    good = odxgen.emit_container({"name": "c_ldl", "layers": [model]})
+    docs = [("sound", good)]
+
+    def variant(name: str, old: str, new: str) -> None:
+        if old not in good:
+            raise RuntimeError(f"generator no longer emits {old!r}")
+        docs.append((name, good.replace(old, new, 1)))
+
+    variant("unknown-transmission-mode", "<DIAG-SERVICE ", '<DIAG-SERVICE TRANSMISSION-MODE="BOGUS" ')
+    variant("unknown-addressing", "<DIAG-SERVICE ", '<DIAG-SERVICE ADDRESSING="BOGUS" ')
+    variant("unknown-diagnostic-class", "<DIAG-SERVICE ", '<DIAG-SERVICE DIAGNOSTIC-CLASS="BOGUS" ')
+    variant("dangling-unit-ref", "</DATA-OBJECT-PROP>", '<UNIT-REF ID-REF="no.such.unit"/></DATA-OBJECT-PROP>')
+    variant("unknown-param-type", 'xsi:type="VALUE"', 'xsi:type="FANCY"')
+    variant("unknown-coded-type", 'xsi:type="STANDARD-LENGTH-TYPE"', 'xsi:type="FANCY-LENGTH-TYPE"')
+    return docs
+
+
+def load_summary(xml: str) -> Any:
+    from .. import odxgen
+    db = odxgen.load_xml([xml])
+    out = []
+    for dl in db.diag_layers:
+        for svc in dl.services:
+            out.append((dl.short_name, svc.short_name,
+                        str(getattr(svc, "transmission_mode", None)), str(getattr(svc, "addressing", None)),
+                        str(getattr(svc, "diagnostic_class", None)),
+                        tuple(p.short_name for p in (svc.request.parameters if svc.request else []))))
+    return tuple(out)
+
+
 def build_ops(tier: str, seed: int) -> Tuple[List[Dict[str, Any]], List[Tuple]]:
     """-> (layer models, ops) ; op = (layer index, message name, kind, payload)"""
     r = random.Random(seed * 31337 + 17)
@@ -169,6 +207,8 @@ def build_ops(tier: str, seed: int) -> Tuple[List[Dict[str, Any]], List[Tuple]]:
     comp = codeccompose.layers("quick", seed)[: (8 if tier == "quick" else 25)]
     models = grid + comp + [odd_layer(), nrc_layer()]
     ops: List[Tuple] = []
+    for name, xml in load_documents():
+        ops.append((-1, name, "load", xml))
     from . import c04
     for li, m in enumerate(models):
         dobjs = {o["name"]: o for o in m["dobjs"]}
@@ -293,8 +333,10 @@ def child_main(mode: str, tier: str, seed: int, out_path: str) -> None:
 
     def run_op(idx: int, op: Tuple) -> Any:
         li, mname, kind, payload = op
-        ll = layers[li]
         info["current_op"] = idx
+        if kind == "load":
+            return codecrun.call(load_summary, payload)
+        ll = layers[li]
         if kind == "layerdec":
             o = codecrun.call(ll.layer.decode, payload)
         elif kind == "layerresp":
